@@ -17,6 +17,7 @@ DOC = {
         'C16.R2': 'get_fixed_prefix: the escape flag set on a backslash is cleared when the next character is consumed',
         'C16.R3': 'every string fragment glob_to_regex emits for an operator starts with a character of the stop set (magic_chars + {?,*}); literal characters go through escape()',
         'C16.R4': 'the fixed prefix is lower-cased iff is_partial_match lower-cases the candidate (both controlled by case_insensitive)',
+        'C16.R5': 'the glob translator joins every parsed token and every alternative: no element-dropping or reordering adaptor (filter, skip, take, dedup, unique, retain, sort, ...) between the parser and the joined regex',
     },
     'not_decided': 'the glob semantics themselves; the regex crate; conservativeness for every glob/path pair (needs bounded-exhaustive testing)',
     'assumptions': ['false positives of the partial match are harmless (documented in regex.rs)'],
@@ -30,6 +31,7 @@ def run(ctx):
     r2(ctx, lib)
     r3(ctx, lib)
     r4(ctx, lib)
+    r5(ctx, lib)
 
 
 def r1(ctx, lib):
@@ -180,3 +182,20 @@ def r4(ctx, lib):
     ci = n.calls(r'RegexBuilder::case_insensitive$')
     ok = bool(ci) and any(n.local_name(l) == 'case_insensitive' for l in backslice(n, [ci[0].args[1]]).locals)
     ctx.check(ok, rule, n.path + '|builder-flag', n.where(), 'the regex itself is built with the same case flag', 'the regex is not built with the case flag')
+
+
+def r5(ctx, lib):
+    rule = 'C16.R5'
+    bodies = [b for p, b in lib.bodies.items() if p.startswith('pattern::Pattern::glob_to_regex') and b.kind != 'promoted']
+    if not ctx.floor(rule, 'bodies of the glob translator (fn, nested fn, closures)', len(bodies), 10):
+        return
+    joins = [c for b in bodies for c in b.calls(r'::join$|::concat$')]
+    ctx.floor(rule, 'join sites in the glob translator (alternatives, token sequence)', len(joins), 2)
+    bad = []
+    for b in bodies:
+        for c in b.calls(r'Iterator::(filter|filter_map|skip|take|step_by|skip_while|take_while|rev|flat_map)$|Itertools::(dedup|unique|sorted)\w*$|Vec<.*>::(retain|dedup\w*|truncate|pop|remove|swap_remove|drain|sort\w*)$|Vec::<T, A>::(retain|dedup\w*|truncate|pop|remove|swap_remove|drain|sort\w*)$|slice::<impl \[T\]>::sort'):
+            bad.append((b, c))
+    for b, c in bad:
+        ctx.violation(rule, '%s|%s' % (b.path, c.path.rsplit('::', 1)[-1]), c.where(), 'the translator applies %s to the parsed pieces: alternatives or tokens can be dropped or reordered (e.g. the empty alternative of `{,.bak}`), which changes the language of the glob' % c.path.rsplit('::', 1)[-1])
+    if not bad:
+        ctx.ok(rule, 'pattern::Pattern::glob_to_regex|no-dropping', bodies[0].where(), 'all %d join sites receive the parsed pieces unfiltered (%d bodies scanned)' % (len(joins), len(bodies)))
